@@ -302,6 +302,48 @@ def rule_length_helpers(ctx, F):
             ctx.bad("P4", "point_add:two-cases", "point_add no longer has the two cases (b.row > 0 → b.column, else a.column + b.column)")
 
 
+def rule_parent_reach(ctx, F):
+    """P5: a parent's look-ahead is the furthest reach of any of its children, not of the last one.  The edit marks a
+    node (and descends into it) only if the edit starts within `end + lookahead_bytes`; a token that looked far past its
+    end while lexing may be followed by short siblings inside the same parent.  ts_subtree_summarize_children therefore
+    keeps a running maximum of `position + size + lookahead_bytes(child)` over *all* children and stores its distance from
+    the parent's end."""
+    from cstores import stores, writes_record
+    fn = ctx.need_fn(F, "ts_subtree_summarize_children", "P5")
+    if not fn:
+        return
+    key = "summarize_children:lookahead-is-max-over-children"
+    sts = [(pt, n) for pt, n, l, op in stores(fn) if writes_record(l, "SubtreeHeapData") == "lookahead_bytes"]
+    final = [(pt, n) for pt, n in sts if not (strip(n.get("r") or {}).get("k") == "int")]
+    if not final:
+        ctx.bad("P5", key, "ts_subtree_summarize_children no longer computes the parent's lookahead_bytes")
+        return
+    fn.defs(0)
+    ok = False
+    why = "the stored value `%s` is not derived from a running maximum over the children" % show(final[-1][1].get("r"))[:70]
+    for pt, n in final:
+        acc = [x for x in walk(n["r"]) if x.get("k") == "ref" and x.get("dk") == "local"]
+        for a in acc:
+            # the accumulator: assigned from another local under `that local > accumulator`
+            ups = [(p2, y) for p2, e in fn.points() for y in own_walk(e) if y.get("k") == "assign" and y.get("op") == "=" and strip(y["l"]).get("k") == "ref" and strip(y["l"]).get("id") == a["id"] and strip(y["r"]).get("k") == "ref"]
+            for p2, y in ups:
+                src = strip(y["r"])
+                d = fn.single_def(src["id"])
+                if d is None or "ts_subtree_lookahead_bytes(" not in show(d):
+                    continue
+                mon_ok = True
+                from flow import GateMonitor
+                g = GateMonitor([p2], [("%s > %s" % (src["name"], a["name"]), True), ("%s < %s" % (a["name"], src["name"]), True), ("%s >= %s" % (src["name"], a["name"]), True)], None, ())
+                g.label = "max"
+                if Search(fn, g).run(0) is None:
+                    ok = True
+    if ok:
+        ctx.ok("P5", key, "the parent's lookahead_bytes is the running maximum of every child's end + look-ahead, measured from the parent's end")
+    else:
+        ctx.bad("P5", key, "ts_subtree_summarize_children: %s — a child that looked far ahead but is not the last child no longer widens its parent's look-ahead, the edit skips the parent, "
+                "and the stale token inside it is reused" % why)
+
+
 def run(ctx):
     for cfg in configs(ctx):
         ctx.config = cfg
@@ -313,6 +355,7 @@ def run(ctx):
         rule_range_edit(ctx, F)
         rule_geometry(ctx, F)
         rule_length_helpers(ctx, F)
+        rule_parent_reach(ctx, F)
     try:
         import rsrules
         rsrules.c10_rust(ctx)
